@@ -296,6 +296,16 @@ def main():
     if binary is None:
         return 2
 
+    # optional second unit of the same check (e.g. an in-package part next to a black-box package): own binary, own job
+    also = spec.get("also")
+    also_binary = None
+    if also:
+        also_dir = os.path.join(workdir, "also")
+        os.makedirs(also_dir, exist_ok=True)
+        also_binary = build(cid + "-also", also, also_dir)
+        if also_binary is None:
+            return 2
+
     known_file = os.path.join(VERIF, "known_findings.json")
     base_env = dict(os.environ)
     base_env.update({
@@ -340,7 +350,20 @@ def main():
             job["ulimit_v_kb"] = spec["ulimit_v_kb"]
         jobs.append(job)
 
-    results = run_procs(jobs, tspec.get("timeout", 600) + 30)
+    if also_binary and not replay:
+        atspec = also.get(tier, also.get("quick", {}))
+        rdir = os.path.join(workdir, "run-also")
+        env = dict(base_env)
+        env.update({"VERIF_STATS": os.path.join(rdir, "stats.json"), "VERIF_SHARD": "0", "VERIF_SHARDS": "1", "VERIF_RUNDIR": rdir})
+        cmd = [also_binary, "-test.v", "-test.timeout=%ds" % atspec.get("timeout", 600), "-test.run=" + atspec.get("run", "."),
+               "-rapid.seed=%d" % ((seed * 64 + 63) % (1 << 63) or 1), "-rapid.shrinktime=%s" % atspec.get("shrinktime", "20s")]
+        if "checks" in atspec:
+            cmd += ["-rapid.checks=%d" % atspec["checks"]]
+        jobs.append(dict(cmd=cmd, cwd=rdir, env=env, log=os.path.join(rdir, "output.log")))
+    elif also_binary and replay and replay.endswith(".fail") and os.path.basename(os.path.dirname(replay)) in also.get("tests", []):
+        jobs[0]["cmd"][0] = also_binary
+
+    results = run_procs(jobs, max(tspec.get("timeout", 600), (also or {}).get(tier, {}).get("timeout", 0)) + 30)
 
     # optional native fuzz campaigns (thorough only); saved crashers are the reproducible unit
     fuzz_notes = []
